@@ -166,12 +166,15 @@ type Machine struct {
 	res       *PathResult
 	harness   string
 	schedDev  int
+	schedOff  bool // vf_Schedule(false): map iteration in insertion order (the reference run)
 	onceDone  map[*value]bool
 	lazy      *lazyState
 	declared  map[string]bool
 	pcSet     map[*smt.Term]bool
 	expectPanic bool
 	printed   []string
+	stdout    value               // text written by fmt.Print* (a rope when it contains symbolic tokens)
+	dirs      map[string]*dirReg // vf_RegisterDir: the in-memory directories of the scanner stub
 	observed  []rawObs
 	pending   []pendingOb
 	builders  map[*value]value
@@ -398,10 +401,14 @@ func (m *Machine) choose(n int, why string) int {
 }
 
 func (m *Machine) scheduleOffset(n int) int {
-	if m.schedDev >= m.eng.MaxSchedDev {
+	if m.schedOff || m.schedDev >= m.eng.MaxSchedDev {
 		return 0
 	}
-	k := m.choose(n, "map-order")
+	c := n // rotations; plus the reversed order when that is not already a rotation
+	if n > 2 {
+		c = n + 1
+	}
+	k := m.choose(c, "map-order")
 	if k != 0 {
 		m.schedDev++
 	}
